@@ -53,6 +53,18 @@ Oracles
      spelling, in reversed order, with all angles first and with every angle directly before its magnitude, given at
      construction, as override, or split over both (angles / magnitudes / halves), must equal the canonical order
      (differentially for every kernel, and by the closed form for parallax).
+ (11) histories on ONE object (shape H): every sequence up to depth 3 (4 in thorough) over {reconstruct, reconstruct(
+     use_initial_state=True), reconstruct(override...), grid search over the rotation only / over one aberration,
+     optimize_hyperparameters over one aberration / the rotation only (low == high, one trial), clear_optimized(), mutating
+     the dictionary the aberration_coefs accessor returned; thorough adds the two fit_* methods} on an object built WITH
+     constructor aberrations. After the last step (every prefix is itself a history): the constructor state is unchanged
+     (accessor and reconstruct(use_initial_state=True) == fresh object), reconstruct() == fresh object built with the
+     hyper-parameters the accessors report, a repeated identical search ends identically, and after clear_optimized()
+     accessors and result are those of the constructor state;
+ (12) copies used further: copy.copy / copy.deepcopy / pickle / deepcopy of the unpickled copy / save+load (counted as
+     rejected where unsupported) of a fresh and of an already used object: every kernel variant on the copy == the original
+     (and the parallax closed form), then both are used alternately: a search on one must not change the other (for the
+     shallow copy.copy, which shares its members by definition, sharing is only counted).
 """
 from __future__ import annotations
 
@@ -70,7 +82,8 @@ TECHNIQUE = (
     "exhaustive configuration lattice (scan shape x mask x sub-mask x aberrations x rotation x kernel+aliases x upsampling x filter) "
     "with the complete schedule dimension (every max_batch_size 1..num_bf and None) at every point; full delta basis of the stack for linearity; "
     "complete spelling families for mask / index arguments and for aberration names x sources (constructor, optimized state, override); "
-    "rotation-angle boundary alphabet (exact multiples of 90 degrees and their 1e-6 neighbours) and key-order permutations of every aberration dictionary"
+    "rotation-angle boundary alphabet (exact multiples of 90 degrees and their 1e-6 neighbours) and key-order permutations of every aberration dictionary; "
+    "all operation histories up to depth 3 / 4 on one object; copy / deepcopy / pickle copies used alternately with the original"
 )
 CLAIM = (
     "For every point of the stated lattice and every batch size 1..num_bf the reconstruction equals the one-batch result (within 3e-5 of its maximum, float32), "
@@ -82,7 +95,9 @@ CLAIM = (
     "size and upsampling factor and of the construction mask gives the result of the canonical spelling, and every combination of "
     "aberration spelling (canonical / alias) and source (constructor, optimized state, reconstruct override) gives the result of the "
     "equivalent all-canonical object, whatever the key order of the dictionaries; at the exact rotation angles 0, +-pi/2, +-pi, 3pi/2, 2pi, 3pi "
-    "(and 1e-6 next to them) the parallax closed form, the quarter-turn symmetry of the detector grid, equality modulo 2pi and continuity hold. Exhaustive lattice + complete schedule enumeration is the right level: the defects live in batch remainders, sub-mask "
+    "(and 1e-6 next to them) the parallax closed form, the quarter-turn symmetry of the detector grid, equality modulo 2pi and continuity hold; after every history of public operations (reconstructions, searches, fits, undo) up to depth 3 (quick) / 4 "
+    "(thorough) the constructor state is intact, the result is the fresh-object result for the reported hyper-parameters and repeated searches end "
+    "identically; copies (copy, deepcopy, pickle) reconstruct like the original and stay independent of it. Exhaustive lattice + complete schedule enumeration is the right level: the defects live in batch remainders, sub-mask "
     "index mapping and two-pass normalisation, all finite dimensions; linearity closes the data quantifier for the smallest shape."
 )
 NOTE = (
@@ -92,7 +107,9 @@ NOTE = (
     "pixels, aberration values off the alphabet and soft_edges=False are not explored. Oracle (6) goes beyond the literal statement. "
     "Spelling families: 0/1-valued masks only; the optimized state is reached through the public searches with a single candidate value; "
     "'defocus' = -C10 is the one alias with a sign; for conflicting spellings in one dictionary the winner is counted in the coverage, not judged. "
-    "Continuity in the rotation angle is judged for obf / mf / parallax / icom with tolerance 1e-2 (true derivative effects reach 2.7e-4); ssb is exempt (pure-phase normalisation)."
+    "Continuity in the rotation angle is judged for obf / mf / parallax / icom with tolerance 1e-2 (true derivative effects reach 2.7e-4); ssb is exempt (pure-phase normalisation). "
+    "Histories run on one small object (6x7 scan, 9-pixel mask, defocus+astigmatism); fit_hyperparameters_least_squares is exempt from 'repeated search is identical' "
+    "(it refines the current state by design); save()/load() of a DirectPtychography is not supported on the current tree (counted as rejected)."
 )
 RULE = (
     "Cartesian product of the alphabets in coverage.alphabet; inside each point every max_batch_size 1..num_bf(sub-mask) and None. An "
@@ -1576,6 +1593,8 @@ def run(ctx):
         "'defocus' = -C10 (documented sign); all other aliases carry the value of their canonical symbol; for conflicting values of one coefficient in one dictionary the property states no order: which spelling wins is counted (coverage.conflicting_spellings_winner), not judged",
         "rotation boundary family: ssb divides by |gamma| and is therefore not continuous in any parameter (jumps up to 0.8 on the current tree); continuity in the rotation angle is judged for obf, mf, parallax and icom only; ssb is judged by the exact quarter-turn symmetry of the detector grid; there is no degree spelling of the rotation angle in from_virtual_bfs / reconstruct",
         "an aberration dictionary is a mapping: key order (also across constructor and override) must not matter",
+        "histories: hyperparameter_state.clear_optimized() and the initial_* fields of hyperparameter_state are treated as public (no underscore); searches use one candidate or a 2-point grid so that they are deterministic; fit_hyperparameters_least_squares is exempt from the repeated-search relation because it takes the current state as its prior",
+        "copies: copy.copy is shallow by definition, so a search on it may change the original (counted in coverage.shallow_copy_shares_hyperparameter_state); the original must then still be the fresh-object result for the hyper-parameters it reports. Routes that raise (save / load on the current tree) are counted in coverage.copy_routes_rejected",
     )
 
     def once():
